@@ -674,6 +674,13 @@ def c01_wide(R, tier="thorough"):
             cs["label"] = label
             cs["prop"] = "C01"
         sources.append((label, vocab, cases))
+    if tier != "quick":
+        # what the generator makes of the repository's own resources must compile too
+        cc = corpus_cases("C01", "gen")
+        for i, cs in enumerate(cc):
+            cs["id"] = 900000 + i + 1
+            cs["corpus"] = True
+        sources.append(("corpus", {"names": {"x": {"xml": "x"}}}, cc))
     total = 0
     for label, vocab, cases, events in crpipe.compile_only("c01x", sources):
         traces = crpipe.write_traces("C01x_" + label, vocab, cases, {str(k): v for k, v in events.items()}, shards=min(4, len(cases)))
